@@ -72,3 +72,9 @@ func VerifEventDone(ev any) {
 func VerifC02ServerState(s *DiscoveryServer) (tokens int, queue VerifPushQueueSnapshot, pushChannelLen int) {
 	return len(s.concurrentPushLimit), s.pushQueue.VerifSnapshot(), len(s.pushChannel)
 }
+
+// VerifC02QueueShutDown is the push-queue half of DiscoveryServer.Shutdown (which first closes the JWKS
+// resolver and can only be called once): PushQueue.ShutDown on the server's real queue.
+func VerifC02QueueShutDown(s *DiscoveryServer) {
+	s.pushQueue.ShutDown()
+}
